@@ -41,7 +41,7 @@ def run(ses, rep):
                     "checked to be handed to them"]
     flagged = c08.analyses(ses, rep) + context_keeps_range(ses, rep)
     rep.samples.append({"flagged": [(f[0], f[1]) for f in flagged][:5]})
-    c08.confirm(rep, flagged, c08.RANGE_BATTERY, "C09", ("range", "both", "ignored-in-range"))
+    c08.confirm(rep, flagged, c08.RANGE_BATTERY, "C09", ("range", "both", "ignored-in-range", "output"))
     c08.sort_requires_kernels(rep, ses, ("guard",), lambda n: "range" in n)
 
 
